@@ -5,10 +5,12 @@ import (
 	"encoding/json"
 	"fmt"
 	"go/ast"
+	"go/build"
 	"go/parser"
 	"go/token"
 	"math/rand"
 	"net/url"
+	"os"
 	"path/filepath"
 	"regexp"
 	"sort"
@@ -182,6 +184,28 @@ func buildSpec(a atom, markerBase int) (J, []opDef) {
 	return d, ops
 }
 
+// excludedFiles lists the generated .go files (relative to dir) that go/build would not compile
+// into their package on the host platform.
+func excludedFiles(dir string) []string {
+	var out []string
+	_ = filepath.Walk(dir, func(p string, fi os.FileInfo, err error) error {
+		if err != nil || fi.IsDir() || !strings.HasSuffix(p, ".go") {
+			return nil
+		}
+		rel, _ := filepath.Rel(dir, p)
+		if strings.HasPrefix(rel, "vfdriver") || !strings.Contains(rel, string(filepath.Separator)) {
+			return nil // the rig's own driver sources
+		}
+		match, merr := build.Default.MatchFile(filepath.Dir(p), filepath.Base(p))
+		if strings.HasSuffix(p, "_test.go") || (merr == nil && !match) {
+			out = append(out, rel)
+		}
+		return nil
+	})
+	sort.Strings(out)
+	return out
+}
+
 var rxModel = regexp.MustCompile(`swagger:model\s+(.+)`)
 
 // modelNames returns swagger:model name -> Go type for the generated models package.
@@ -305,6 +329,18 @@ func judge(c *core.Ctx, swagger string, a atom, spec J, ops []opDef, key string,
 	s := servrig.Build(c, swagger, spec, servrig.Options{WithClient: true})
 	defer s.Cleanup()
 	files := map[string]string{"spec.json": string(jx.Marshal(spec))}
+	// a generated file that go/build leaves out on this platform (its name ends in a GOOS /
+	// GOARCH word or in _test) is a handler, client method or model that silently is not there,
+	// whether or not the rest still compiles
+	if s.Stage != "generate" && s.Stage != "generate-client" && s.Mod != nil {
+		if ex := excludedFiles(s.Mod.Dir); len(ex) > 0 {
+			mu.Lock()
+			c.Violation(key+"/file-excluded-from-build", fmt.Sprintf("%s: generated files are ignored by go build because of their names: %s", a.id, strings.Join(ex, ", ")), files)
+			mu.Unlock()
+			return false
+		}
+		c.Sig(a.id + "/all-files-in-build")
+	}
 	switch s.Stage {
 	case "generate", "generate-client":
 		c.Eval(a.id + "/outcome=error")
